@@ -174,10 +174,17 @@ def insertAsset (p n : Bytes) (q : Int) : List (Bytes × Bytes × Int) → List 
     else (p', n', q') :: insertAsset p n q rest
 
 /-- `aggregate_output_values`: totals, the 64-bit guard, then coin + ordered multi-asset. -/
+def CValue.coinPart : CValue → Int
+  | .coin c => c
+  | _ => 0
+
+def CValue.addTo (acc : List (Bytes × Bytes × Int)) : CValue → List (Bytes × Bytes × Int)
+  | .asset p n q => insertAsset p n q acc
+  | _ => acc
+
 def aggregateOutput (vs : List CValue) : Outcome (Int × List (Bytes × Bytes × Int)) :=
-  let coin := (vs.map fun v => match v with | .coin c => c | _ => 0).sum
-  let assets := vs.foldl (fun acc v => match v with
-    | .asset p n q => insertAsset p n q acc | _ => acc) []
+  let coin := (vs.map CValue.coinPart).sum
+  let assets := vs.foldl CValue.addTo []
   if coin > u64Max || assets.any (fun a => a.2.2 > u64Max) then cerr "output amount"
   else .ok (coin, assets)
 
